@@ -28,8 +28,8 @@ PROP_OPS = {"C10": ["Delete", "Pop"], "C11": ["Extend", "ExtendTypes", "ExtendSh
 ALLF = '{"F1p", "F2p", "F3p", "F4p", "F3r", "F3q", "F3a", "F2b", "F4b", "F3x", "F2y", "E"}'
 TIERS = {
     "quick": {
-        "C09": dict(InitFrags='{"F2p", "F4p", "F3a", "F4b", "F3x", "E"}', ExtFrags='{"F1p", "F3p", "F2b", "F2y"}',
-                    InitCells='{"none", "tri"}', MaxAtoms=8, MaxDepth=2, MaxMap=1, MaxDel=1, Dims="DimsQuick"),
+        "C09": dict(InitFrags='{"F2p", "F4p", "F4b", "F3x", "E"}', ExtFrags='{"F1p", "F3p", "F2b"}',
+                    InitCells='{"none", "tri"}', MaxAtoms=8, MaxDepth=2, MaxMap=1, MaxDel=2, Dims="DimsQuick"),
         "C10": dict(InitFrags='{"F2p", "F4p", "F3r", "F3a", "F4b", "F3x"}', ExtFrags='{"F1p", "F3p", "F2y"}',
                     InitCells='{"none"}', MaxAtoms=8, MaxDepth=2, MaxMap=1, MaxDel=3, Dims="DimsQuick"),
         "C11": dict(InitFrags='{"F2p", "F4p", "F3r", "F3a", "F4b", "F3x", "E"}', ExtFrags='{"F1p", "F3p", "F3q", "F2b", "F2y"}',
